@@ -234,6 +234,10 @@ class Response:
                     util.reraise(exc_info[0], exc_info[1], exc_info[2])
             finally:
                 exc_info = None
+            # PEP 3333: the new headers replace the ones stored by the earlier call
+            self.headers = []
+            self.response_length = None
+            self.upgrade = False
         elif self.status is not None:
             raise AssertionError("Response headers already set!")
 
